@@ -68,6 +68,13 @@ fn stable_msg(m: &str) -> String {
   out.chars().take(90).collect()
 }
 
+/// The signature of a panic: file and normalised message, independent of line numbers (the
+/// full location goes into the observed text).
+fn panic_signature(site: &str, msg: &str) -> String {
+  let file = site.rsplit_once(':').map(|x| x.0).unwrap_or(site);
+  format!("panic {}: {}", file, stable_msg(msg))
+}
+
 // ------------------------------------------------------------------------------------------------
 // the logical table
 
@@ -92,7 +99,6 @@ struct Tbl {
   semantic: bool,
   in_names: Vec<String>,
   in_types: Vec<Ty>,
-  blank_values: u8,
   merge: bool,
 }
 
@@ -142,10 +148,12 @@ impl Tbl {
       Sexp::str(""),
       Sexp::list(self.anns.iter().map(|_| Sexp::str("")).collect()),
       Sexp::bool(self.merge),
+      Sexp::list(self.inputs.iter().map(|_| Sexp::str("")).collect()),
+      Sexp::list(self.outputs.iter().map(|_| Sexp::str("")).collect()),
     ])
   }
   fn has_values(&self) -> bool {
-    self.inputs[0].1.is_some()
+    self.inputs.iter().any(|i| i.1.is_some()) || self.outputs.iter().any(|o| o.1.is_some())
   }
   fn header_lanes(&self) -> usize {
     1 + (self.outputs.len() > 1 && self.label.is_some()) as usize + self.has_values() as usize
@@ -213,6 +221,15 @@ fn free_text(rng: &mut Rng, multi: bool) -> String {
   v.join("\n")
 }
 
+/// Allowed values are never blank (a blank cell means: no allowed values).
+fn non_blank_text(s: String) -> String {
+  if s.trim().is_empty() {
+    "v".to_string()
+  } else {
+    s
+  }
+}
+
 /// Breaks a comma separated FEEL text after a comma.
 fn wrap_at_comma(rng: &mut Rng, s: String, multi: bool) -> String {
   if !multi || !rng.chance(1, 2) {
@@ -269,7 +286,7 @@ struct Shape {
   split: bool,
   /// allow texts that collide with the recogniser's placement heuristics
   quirks: bool,
-  /// 1: leave the allowed output values blank, 2: leave the allowed input values blank
+  /// 1: no allowed output values (blank cells), 2: no allowed input values, 3: a random subset
   blank_values: u8,
   /// draw equal input entries of consecutive rules as one merged cell
   merge: bool,
@@ -286,7 +303,7 @@ fn gen_table(rng: &mut Rng, sh: &Shape, semantic: bool, multi: bool) -> Tbl {
       0 => format!("Applicant age {}", j + 1),
       1 => format!("Order size{}", j + 1),
       2 if j > 0 => ["A", "P", "C"][j % 3].to_string() + &format!("{}", j),
-      // an input called like a hit policy marker (F19a when it is the first one of a rules-as-columns table)
+      // an input called like a hit policy marker (regression of F19a when it is the first one of a rules-as-columns table)
       3 if sh.quirks => ["A", "P", "C", "U", "F", "R", "O"][(j + sh.r) % 7].to_string(),
       _ => format!("in{}", j + 1),
     };
@@ -299,16 +316,14 @@ fn gen_table(rng: &mut Rng, sh: &Shape, semantic: bool, multi: bool) -> Tbl {
     } else {
       free_text(rng, multi)
     };
-    let vals = if sh.values {
-      Some(if sh.blank_values == 2 {
-        String::new()
-      } else if semantic {
+    let vals = if sh.values && sh.blank_values != 2 && !(sh.blank_values == 3 && rng.chance(1, 2)) {
+      Some(if semantic {
         match ty {
           Ty::Num => wrap_at_comma(rng, "<5,[5..10],>10".to_string(), multi),
           Ty::Str => wrap_at_comma(rng, "\"a\",\"b\",\"c\",\"d\"".to_string(), multi),
         }
       } else {
-        free_text(rng, multi)
+        non_blank_text(free_text(rng, multi))
       })
     } else {
       None
@@ -325,17 +340,15 @@ fn gen_table(rng: &mut Rng, sh: &Shape, semantic: bool, multi: bool) -> Tbl {
     } else {
       None
     };
-    let vals = if sh.values {
-      Some(if sh.blank_values == 1 {
-        String::new()
-      } else if semantic {
+    let vals = if sh.values && sh.blank_values != 1 && !(sh.blank_values == 3 && rng.chance(1, 2)) {
+      Some(if semantic {
         if numeric_out {
           wrap_at_comma(rng, "1,2,3,4,5,6,7,8,9".to_string(), multi)
         } else {
           wrap_at_comma(rng, "\"x\",\"y\",\"z\"".to_string(), multi)
         }
       } else {
-        free_text(rng, multi)
+        non_blank_text(free_text(rng, multi))
       })
     } else {
       None
@@ -343,7 +356,7 @@ fn gen_table(rng: &mut Rng, sh: &Shape, semantic: bool, multi: bool) -> Tbl {
     outputs.push((name, vals));
   }
   let label = if sh.m == 1 || sh.label {
-    // a label that reads as a number (F19b in a rules-as-columns table)
+    // a label that reads as a number (regression of F19b in a rules-as-columns table)
     Some(if sh.quirks && rng.chance(1, 4) { format!("{}", 1 + rng.below(3)) } else { free_text(rng, multi) })
   } else {
     None
@@ -396,7 +409,6 @@ fn gen_table(rng: &mut Rng, sh: &Shape, semantic: bool, multi: bool) -> Tbl {
     semantic,
     in_names,
     in_types,
-    blank_values: if sh.values { sh.blank_values } else { 0 },
     merge: sh.merge,
   }
 }
@@ -415,7 +427,7 @@ fn random_shape(rng: &mut Rng) -> Shape {
     label: rng.chance(1, 2),
     split: rng.chance(1, 2),
     quirks: rng.chance(1, 6),
-    blank_values: 0,
+    blank_values: if rng.chance(1, 3) { 1 + rng.below(3) as u8 } else { 0 },
     merge: rng.chance(1, 3),
   }
 }
@@ -529,13 +541,9 @@ fn err_name(msg: &str) -> String {
   format!("scanner:{}", stable_msg(m))
 }
 
-/// The file a model panic site lives in.
-fn site_file(site: &str) -> &'static str {
-  match site {
-    "rectSub" => "recognizer/src/rect.rs",
-    "builderIndex" => "recognizer/src/builder.rs",
-    _ => "recognizer/src/plane.rs",
-  }
+/// The file a model panic site lives in (`builderIndex` is the only site left).
+fn site_file(_site: &str) -> &'static str {
+  "recognizer/src/builder.rs"
 }
 
 struct PlaneObs {
@@ -953,7 +961,7 @@ pub fn run(cfg: &Cfg) -> Report {
   }
   // allowed values lane with blank output (or input) values
   for (i, hp) in MARKERS.iter().enumerate() {
-    for bv in [1u8, 2] {
+    for bv in [1u8, 2, 3] {
       let sh = Shape { orient: if i % 2 == 0 { "rows" } else { "cols" }, n: 1 + i % 3, m: 1 + i % 2, k: i % 2, r: 2 + i % 3, hp, name: false, values: true, label: i % 3 == 0, split: i % 2 == 1, quirks: false, blank_values: bv, merge: false };
       cases.push(mk_case(&mut rng, &sh, true, false));
     }
@@ -1053,7 +1061,7 @@ pub fn run(cfg: &Cfg) -> Report {
 
     let obs = run_impl(&text);
     if let Some((site, msg)) = &obs.panic {
-      rep.disagree(Kind::ImplVsSpec, "total", &format!("panic {} {}", site, stable_msg(msg)), &text, &format!("panic: {}", msg), "Ok or Err");
+      rep.disagree(Kind::ImplVsSpec, "total", &panic_signature(site, msg), &text, &format!("panic at {}: {}", site, msg), "Ok or Err");
       continue;
     }
     // (a) the scanner's plane
@@ -1090,13 +1098,7 @@ pub fn run(cfg: &Cfg) -> Report {
     // (b) the built table
     let got = impl_outcome(&obs);
     if got != expected_outcome {
-      let first_expr_marker = t.orient == "cols" && MARKERS.contains(&t.inputs[0].0.trim());
-      let lane = if t.outputs.len() == 1 || t.label.is_some() { t.label.clone().unwrap_or_default() } else { t.outputs[0].0.clone().unwrap_or_default() };
-      let lane_numeric = t.orient == "cols" && lane.trim().parse::<usize>().is_ok();
-      let predicted = got == model_recognized;
       let sig = match &obs.built {
-        Err(_) if predicted && first_expr_marker => "rules-as-columns table whose first input expression is a hit policy marker is rejected".to_string(),
-        Err(_) if predicted && lane_numeric => "rules-as-columns table whose first output lane reads as a number is rejected".to_string(),
         Err(m) => format!("drawing of a well-formed table rejected: {} ({})", err_name(m), t.orient),
         Ok(dt) => {
           let g = table_sexp(dt);
@@ -1161,7 +1163,7 @@ pub fn run(cfg: &Cfg) -> Report {
     }
   }
   // the corpus: the repository's own gallery and the witnesses of the findings
-  let mut corpus: Vec<(String, String, String)> = vec![];
+  let mut corpus: Vec<(String, String, String, Vec<(String, String)>)> = vec![];
   if let Ok(rd) = std::fs::read_dir("corpus/C19") {
     let mut files: Vec<_> = rd.filter_map(|e| e.ok()).map(|e| e.path()).filter(|p| p.extension().map(|x| x == "dtb").unwrap_or(false)).collect();
     files.sort();
@@ -1169,26 +1171,33 @@ pub fn run(cfg: &Cfg) -> Report {
       if let Ok(content) = std::fs::read_to_string(&f) {
         let mut expect = String::new();
         let mut body = String::new();
+        let mut evals: Vec<(String, String)> = vec![];
         for l in content.lines() {
           if let Some(rest) = l.strip_prefix("% expect:") {
             expect = rest.trim().to_string();
+          } else if let Some(rest) = l.strip_prefix("% context:") {
+            evals.push((rest.trim().to_string(), String::new()));
+          } else if let Some(rest) = l.strip_prefix("% result:") {
+            if let Some(last) = evals.last_mut() {
+              last.1 = rest.trim().to_string();
+            }
           } else if !l.starts_with('%') {
             body.push_str(l);
             body.push('\n');
           }
         }
-        corpus.push((f.file_name().unwrap().to_string_lossy().to_string(), expect, body));
+        corpus.push((f.file_name().unwrap().to_string_lossy().to_string(), expect, body, evals));
       }
     }
   }
   rep.extra.insert("corpus_drawings".into(), json!(corpus.len()));
-  for (name, expect, body) in &corpus {
+  for (name, expect, body, evals) in &corpus {
     rep.case(body, true);
     rep.hit("corpus");
     {
       let obs = run_impl(body);
       if let Some((site, msg)) = &obs.panic {
-        rep.disagree(Kind::ImplVsSpec, "total", &format!("panic {} {}", site, stable_msg(msg)), body, &format!("panic: {}", msg), "Ok or Err");
+        rep.disagree(Kind::ImplVsSpec, "total", &panic_signature(site, msg), body, &format!("panic at {}: {}", site, msg), "Ok or Err");
       }
       {
         let got = impl_outcome(&obs);
@@ -1199,6 +1208,24 @@ pub fn run(cfg: &Cfg) -> Report {
         };
         if !ok {
           rep.disagree(Kind::ImplVsSpec, "corpus", &format!("corpus drawing {}: outcome differs from the recorded one", name), body, &got.chars().take(200).collect::<String>(), expect);
+        }
+        // recorded evaluations of the recognised table: `% context: {…}` / `% result: …`
+        for (ctx_text, want) in evals {
+          let r = guarded(|| {
+            let dt = obs.built.as_ref().map_err(|e| e.clone())?;
+            let ctx: FeelContext = dmntk_feel_evaluator::evaluate_context(&Scope::default(), ctx_text).map_err(|e| e.to_string())?;
+            let scope: Scope = ctx.into();
+            let ev = dmntk_model_evaluator::build_decision_table_evaluator(&scope, dt).map_err(|e| format!("build error: {}", stable_msg(&e.to_string())))?;
+            Ok::<String, String>(canon(&ev(&scope)))
+          });
+          let gotv = match r {
+            Ok(Ok(v)) => v,
+            Ok(Err(e)) => e,
+            Err(m) => format!("panic: {}", m),
+          };
+          if &gotv != want {
+            rep.disagree(Kind::ImplVsSpec, "corpus", &format!("corpus drawing {}: evaluation differs from the recorded one", name), &format!("{}\n% {}", body, ctx_text), &gotv, want);
+          }
         }
         if let Ok((p, nm)) = &obs.scanned {
           let mut v = vec![Sexp::atom("plane"), opt_sexp(nm)];
@@ -1245,7 +1272,7 @@ pub fn run(cfg: &Cfg) -> Report {
       let obs = run_impl(text);
       if let Some((site, msg)) = &obs.panic {
         rep.hit("outcome:panic");
-        rep.disagree(Kind::ImplVsSpec, "total", &format!("panic {} {}", site, stable_msg(msg)), text, &format!("panic: {}", msg), "Ok or Err");
+        rep.disagree(Kind::ImplVsSpec, "total", &panic_signature(site, msg), text, &format!("panic at {}: {}", site, msg), "Ok or Err");
       }
       {
         let got = impl_outcome(&obs);
@@ -1346,9 +1373,7 @@ fn evaluate_family(rep: &mut Report, rng: &mut Rng, t: &Tbl, dt: &DecisionTable,
         rep.hit(if x == "null" { "evaluate:null" } else { "evaluate:value" });
         if x != d {
           let wrapped = t.inputs.iter().any(|(e, _)| e.contains('\n'));
-          let sig = if t.blank_values != 0 {
-            format!("table drawn with blank allowed {} values does not evaluate like the table without them", if t.blank_values == 1 { "output" } else { "input" })
-          } else if d.starts_with("build error") {
+          let sig = if d.starts_with("build error") {
             format!("recognised table does not build an evaluator{}", if wrapped { " (input expression wrapped over lines)" } else { "" })
           } else if wrapped {
             "recognised table evaluates differently from the XML table (input expression wrapped over lines)".to_string()
@@ -1360,7 +1385,7 @@ fn evaluate_family(rep: &mut Report, rng: &mut Rng, t: &Tbl, dt: &DecisionTable,
       }
       Ok(Err(_)) => rep.hit("evaluate:context-error"),
       Err(m) => {
-        rep.disagree(Kind::ImplVsSpec, "evaluate", &format!("panic {} {}", last_panic(), stable_msg(&m)), &format!("{}\n% {}", text, ctx_text), "panic", "a value");
+        rep.disagree(Kind::ImplVsSpec, "evaluate", &panic_signature(&last_panic(), &m), &format!("{}\n% {}", text, ctx_text), &format!("panic at {}: {}", last_panic(), m), "a value");
       }
     }
   }
